@@ -113,7 +113,10 @@ def expected_probes(st):
     exp["hoverAnswers"] = bool(st["features.hover"])
     # the probe's included file has 3.1 kB; diagnostics must be on for the report to be seen
     # (the including document itself has about 31 bytes: below that the load stops at the document)
-    exp["bigTooLarge"] = (40 <= st["limits.maxFileSizeBytes"] < 3000) if (st["features.diagnostics"] and st["limits.maxFileSizeBytes"] >= 40) else None
+    # a depth limit of 1 stops at the document's own include directive, before the file is even looked at
+    seen = st["features.diagnostics"] and st["limits.maxFileSizeBytes"] >= 40
+    exp["tooDeep"] = (st["limits.maxIncludeDepth"] == 1) if seen else None
+    exp["bigTooLarge"] = (st["limits.maxFileSizeBytes"] < 3000) if (seen and st["limits.maxIncludeDepth"] >= 2) else None
     return exp
 
 
@@ -166,6 +169,10 @@ def evaluate(c, res):
             if ep["bigTooLarge"] is not None and "bigTooLarge" in gp and gp["bigTooLarge"] != ep["bigTooLarge"]:
                 divs.append(("probe:include-size-limit", "step %d payload %s: a document that includes a file of 3.1 kB (already in the loader's cache) %s 'too large', limits.maxFileSizeBytes in effect is %r" % (
                     k, pj[:200], "reports" if gp["bigTooLarge"] else "does not report", exp["limits.maxFileSizeBytes"])))
+                break
+            if ep["tooDeep"] is not None and "tooDeep" in gp and gp["tooDeep"] != ep["tooDeep"]:
+                divs.append(("probe:include-depth-limit", "step %d payload %s: a document with one include directive %s 'include depth limit exceeded', limits.maxIncludeDepth in effect is %r" % (
+                    k, pj[:200], "reports" if gp["tooDeep"] else "does not report", exp["limits.maxIncludeDepth"])))
                 break
             gc = set(x for x, on in (gp.get("codes") or {}).items() if on and x in ("UNDECLARED_ACCOUNT", "UNDECLARED_COMMODITY", "UNBALANCED"))
             if gc != ep["codes"]:
